@@ -115,7 +115,7 @@ def judge(case):
         mu.cell("body:%d-gon" % len(body[1]))
     x, y = pre or C.lift_pair(case)
     kb_ = "%s,%s" % (ka, kb)
-    C.run_inter(G.intersection, x, y, exp, "intersection(a,b)", mu, kb_)
+    C.run_inter(G.intersection, x, y, exp, "intersection(a,b)", mu, kb_, descs=(a, b))
     if ka != "P":
         C.run_inter(lambda p, q: p.intersection(q), x, y, exp, "a.intersection(b)", mu, kb_)
     if f[0] == "S" and mu.viol is None:
